@@ -4,6 +4,10 @@ import (
 	"crypto/sha256"
 	"encoding/hex"
 	"encoding/json"
+	"os"
+	"path/filepath"
+	"strings"
+	"syscall"
 
 	"verif/internal/sim"
 )
@@ -24,4 +28,37 @@ func All() map[string]sim.Property {
 		"C08": C08{},
 		"C12": C12{},
 	}
+}
+
+// cwdIgnoreText is the .gitignore placed in a process's working directory by the fault
+// "working-directory-holds-gitignore": anchored patterns, which under git's own semantics concern
+// entries of that directory only - never the package directories of a project analysed below it.
+const cwdIgnoreText = "/a\n/b\n/x\n/z\n/ads\n/tools\n/src\n/p\n/com\n/org\n/javabook\n/javax\n/00\n/01\n/02\n/03\n/04\n"
+
+// makeDeepDir creates, below dir/name, a chain of directories whose full path is longer than
+// PATH_MAX (a runaway cache or a node_modules-style tree): every path-based system call on its deeper
+// levels fails with ENAMETOOLONG, so a tree walk meets errors in the middle of the walk.
+func makeDeepDir(dir, name string) error {
+	if err := os.MkdirAll(filepath.Join(dir, name), 0755); err != nil {
+		return err
+	}
+	fd, err := syscall.Open(filepath.Join(dir, name), syscall.O_RDONLY|syscall.O_DIRECTORY, 0)
+	if err != nil {
+		return err
+	}
+	seg := strings.Repeat("d", 200)
+	for depth := 0; depth < 22; depth++ {
+		if err := syscall.Mkdirat(fd, seg, 0755); err != nil && err != syscall.EEXIST {
+			syscall.Close(fd)
+			return err
+		}
+		next, err := syscall.Openat(fd, seg, syscall.O_RDONLY|syscall.O_DIRECTORY, 0)
+		syscall.Close(fd)
+		if err != nil {
+			return err
+		}
+		fd = next
+	}
+	syscall.Close(fd)
+	return nil
 }
